@@ -12,7 +12,9 @@ histories to a small depth must give the same states and the same violation sign
 Operations: format(spec) / str / draw still / draw animated (repeat 1, 2; repeat=-1 cut by Ctrl-C at a
 frame delay; virtual stdout + clock) / draw with an invalid repeat, cached or style argument /
 ImageIterator(...) / next / seek(p) / close / drop + gc.collect() / image.close / image.seek /
-image.n_frames / set a fixed size, a second one, the dynamic Size.FIT / terminal resize; plus the
+image.n_frames / set a fixed size, a second one, the dynamic Size.FIT, a fixed size too wide / too high for
+the terminal (every size-validating draw must then raise InvalidSizeError and leave nothing open) /
+terminal resize; plus the
 constructor product (`run_ctor`): from_url x {404 (with and without an image body), 500, non-image,
 empty body, refused connection, malformed URL}, from_file x {missing, non-image, directory}, valid
 image x invalid constructor arguments, render style not supported by the terminal, failing Image.open.
